@@ -5,7 +5,7 @@ to every source pattern of engine.pat, so that rules see (and are written agains
   N2  c < x  (constant on the left)   ->  x > c ;   a < b / a <= b (no constant operand)  ->  b > a / b >= a ;
       a == b / a != b (no constant operand): `self...` operand first, otherwise text order;
       a (dotted) ALL_CAPS name counts as a constant
-  N3  if not C: A else: B             ->  if C: B else: A       (else-arm present and not an elif chain)
+  N3  if not C: A else: B             ->  if C: B else: A       (else-arm present; an `elif` chain under `if not C` becomes the body of the else)
 
 Each rewrite preserves behaviour for the builtin types the package compares and accumulates (ints, bytes, str, names, lists).
 engine.cfg.canonical_atom applies the same N2 convention to comparison atoms (also after a `not` has been pushed inwards).
@@ -52,8 +52,7 @@ def normalise(tree: ast.AST) -> ast.AST:
             elif isinstance(n.ops[0], (ast.Eq, ast.NotEq)) and not _is_const(l) and not _is_const(r) and eq_rank(ast.unparse(l)) > eq_rank(ast.unparse(r)):
                 n.left, n.comparators = r, [l]  # == / != between two non-constants: operands in text order
 
-        elif isinstance(n, ast.If) and isinstance(n.test, ast.UnaryOp) and isinstance(n.test.op, ast.Not) and n.orelse \
-                and not (len(n.orelse) == 1 and isinstance(n.orelse[0], ast.If)) and not _only_ellipsis(n.orelse):
+        elif isinstance(n, ast.If) and isinstance(n.test, ast.UnaryOp) and isinstance(n.test.op, ast.Not) and n.orelse and not _only_ellipsis(n.orelse):
             n.test = n.test.operand
             n.body, n.orelse = n.orelse, n.body
         elif isinstance(n, ast.Assign) and len(n.targets) == 1 and isinstance(n.targets[0], (ast.Name, ast.Attribute)) and isinstance(n.value, ast.BinOp) \
